@@ -28,6 +28,11 @@ def run(ctx):
     ctx.each(r07i, ctx, repo)
     ctx.each(flowalg.share_rule, ctx, repo, "R07h")  # people placed in a junction by the databook are passed on in full by the initial flush
     ctx.each(flowalg.accumulator_rule, ctx, repo, "R07f", [("model", "Characteristic.update"), ("model", "Characteristic.vals")], 4, "the characteristic sums")
+    # the solved initial size reaches a timed compartment through TimedCompartment.__setitem__ (and the flush through dest[0] +=): the rows must add up to the value
+    from .c01 import r01g
+    from . import common as K_
+
+    ctx.each(r01g, ctx, repo, K_.types(repo))
 
 
 def _raised_class(r):
